@@ -301,6 +301,9 @@ def run_c05(R, tier, rng):
                 if ufn.startswith("bitwise") and dt.startswith("float"): continue
                 C.cmp(f"np.{ufn}.reduce {dt} {ls}", "ufunc.reduce/" + ufn, nt, lambda: obs1(uf.reduce(mk(), axis=-1)),
                       lambda: spec1(lambda r: uf.reduce(r)) if n else {"array": [], "dtype": str(uf.reduce(np.array([], dtype=dt)).dtype)}, py=f"np.{ufn}.reduce(RaggedArray({X}, dtype='{dt}'), axis=-1)")
+                C.cmp(f"np.{ufn}.reduce keepdims {dt} {ls}", "ufunc.reduce/keepdims", nt, lambda: obs1(uf.reduce(mk(), axis=-1, keepdims=True)),
+                      lambda: (lambda sp: {"array": [[x] for x in sp["array"]], "dtype": sp["dtype"]})(spec1(lambda r: uf.reduce(r)) if n else {"array": [], "dtype": str(uf.reduce(np.array([], dtype=dt)).dtype)}),
+                      py=f"np.{ufn}.reduce(RaggedArray({X}, dtype='{dt}'), axis=-1, keepdims=True)")
             # max / min / mean / argmax / argmin: every NON-EMPTY row
             ne = [i for i, l in enumerate(ls) if l > 0]
             for meth in ("max", "min", "mean"):
